@@ -1,10 +1,12 @@
 package main
 
 import (
+	"fmt"
 	"go/constant"
 	"go/token"
 	"go/types"
 	"math/big"
+	"sort"
 	"strings"
 
 	"golang.org/x/tools/go/ssa"
@@ -27,6 +29,7 @@ func runC14(c *Ctx) {
 	c.rule("O1", "retry.Do is always bounded (Attempts) and context-bound (Context from a context parameter); RetryIf also passes RetryIf(cond) and LastErrorOnly(true), bounds attempts by RetryMax, runs fn once when disabled and converts context errors", 5)
 	c.rule("O6", "every attempt tests the context before it calls the operation (retry-go only looks at the context while it waits between attempts)", 1)
 	c.rule("O7", "a value of a header is only taken from the list the header map holds where that list was found non-empty (or through Header.Get)", 1)
+	c.rule("O8", "the Retry-After header is looked at only on paths where the status code was found equal to 429 or to 503 (equality tests only, both codes present): an ordering test would let other statuses through", 1)
 	c.rule("O2", "a header-derived number multiplied into a time.Duration is clamped to [0, MaxInt64/multiplier] on every path", 1)
 	c.rule("O3", "the Apply siblings share the Retry-After prologue: consulted only under ConsiderRetryAfter, hint returned exactly when found", 3)
 	c.rule("O4", "fall-backs: constant → min; linear → LinearJitterBackoff(min,max,attempt,resp); exponential → max unless the wait is representable and ≤ max", 3)
@@ -37,6 +40,7 @@ func runC14(c *Ctx) {
 	c.c14Siblings()
 	c.c14Selection()
 	c.c14HeaderValues()
+	c.c14StatusGate()
 }
 
 const retryGo = "github.com/avast/retry-go/v4."
@@ -811,4 +815,197 @@ func c14TestsLen(v ssa.Value, list ssa.Value, depth int) bool {
 		}
 	}
 	return false
+}
+
+// c14StatusGate (O8): "a Retry-After value on a 429/503 response replaces it". In the function that reads the header
+// (findRetryAfter) every use of Response.StatusCode is an equality test against a constant, the constants are exactly 429
+// and 503, and the header map of the response cannot be reached from the entry without crossing the matching side of one
+// of those tests.
+func (c *Ctx) c14StatusGate() {
+	f := c.fn("http", "findRetryAfter")
+	if f == nil {
+		return
+	}
+	key := fname(f) + "/status-gate"
+	codes := map[int64]bool{}
+	bad := ""
+	matched := map[*ssa.BasicBlock]int{} // block ending in If → successor index on which the status matched
+	n := 0
+	allInstrs(f, func(in ssa.Instruction) {
+		u, ok := in.(*ssa.UnOp)
+		if !ok {
+			return
+		}
+		if _, ok := fieldLoad(u, "Response", "StatusCode"); !ok {
+			return
+		}
+		n++
+		for _, r := range *u.Referrers() {
+			// a predicate of the package over the code (`isThrottled(resp.StatusCode)`): its parameter obeys the same rule
+			// and it answers true only on a match
+			if cl, ok := r.(*ssa.Call); ok {
+				if g := staticCallee(&cl.Call); g != nil && len(g.Blocks) > 0 && g.Pkg == f.Pkg && len(cl.Call.Args) == 1 && g.Signature.Results().Len() == 1 {
+					if why := c14StatusPredicate(g, codes); why != "" {
+						bad = c.ipos(r) + ": " + why
+						continue
+					}
+					for _, br := range *cl.Referrers() {
+						if ifi, ok := br.(*ssa.If); ok {
+							matched[ifi.Block()] = 0
+						} else {
+							bad = c.ipos(br) + ": the outcome of the status test is not branched on directly"
+						}
+					}
+					continue
+				}
+			}
+			bo, ok := r.(*ssa.BinOp)
+			if !ok || (bo.Op != token.EQL && bo.Op != token.NEQ) {
+				bad = c.ipos(r) + ": the status code is used in something other than an equality test"
+				continue
+			}
+			other := bo.X
+			if other == ssa.Value(u) {
+				other = bo.Y
+			}
+			k, isC := constInt(other)
+			if !isC {
+				bad = c.ipos(r) + ": the status code is compared with something that is not a constant"
+				continue
+			}
+			codes[k] = true
+			for _, br := range *bo.Referrers() {
+				if ifi, ok := br.(*ssa.If); ok {
+					if bo.Op == token.EQL {
+						matched[ifi.Block()] = 0
+					} else {
+						matched[ifi.Block()] = 1
+					}
+				} else {
+					bad = c.ipos(br) + ": the outcome of the status test is not branched on directly"
+				}
+			}
+		}
+	})
+	if n == 0 {
+		c.violate("O8", key, c.pos(f.Pos()), "findRetryAfter no longer looks at the status code of the response: the header of any response would be honoured")
+		return
+	}
+	if bad == "" && !(len(codes) == 2 && codes[429] && codes[503]) {
+		bad = fmt.Sprintf("the status codes tested are %v, not exactly 429 and 503", keysOf(codes))
+	}
+	if bad == "" {
+		isHeader := func(in ssa.Instruction) bool {
+			switch x := in.(type) {
+			case *ssa.UnOp:
+				_, ok := fieldLoad(x, "Response", "Header")
+				return ok
+			case *ssa.FieldAddr:
+				_, ok := fieldAddrOf(x, "Response", "Header")
+				return ok
+			}
+			return false
+		}
+		hit := pathPruned(f, nil, func(ssa.Instruction) bool { return false }, isHeader, func(b *ssa.BasicBlock, k int) bool {
+			m, ok := matched[b]
+			return ok && m == k
+		})
+		if hit != nil {
+			bad = "the header of the response is reached at " + c.ipos(hit) + " without the status code having been found equal to 429 or 503"
+		}
+	}
+	c.check(bad == "", "O8", key, c.pos(f.Pos()), "header consulted only once the status was found equal to 429 or 503", bad)
+}
+
+// c14StatusPredicate: g(code) bool uses its parameter only in equality tests against constants (collected in codes) and
+// returns true only where one matched. "" when so.
+func c14StatusPredicate(g *ssa.Function, codes map[int64]bool) string {
+	p := g.Params[0]
+	matched := map[*ssa.BasicBlock]int{}
+	var eqs []ssa.Value
+	for _, r := range *p.Referrers() {
+		bo, ok := r.(*ssa.BinOp)
+		if !ok || (bo.Op != token.EQL && bo.Op != token.NEQ) {
+			return g.Name() + " uses the status code in something other than an equality test"
+		}
+		other := bo.X
+		if other == ssa.Value(p) {
+			other = bo.Y
+		}
+		k, isC := constInt(other)
+		if !isC {
+			return g.Name() + " compares the status code with something that is not a constant"
+		}
+		codes[k] = true
+		if bo.Op == token.EQL {
+			eqs = append(eqs, bo)
+		}
+		for _, br := range *bo.Referrers() {
+			if ifi, ok := br.(*ssa.If); ok {
+				if bo.Op == token.EQL {
+					matched[ifi.Block()] = 0
+				} else {
+					matched[ifi.Block()] = 1
+				}
+			}
+		}
+	}
+	// every return of a value that can be true: the constant true only beyond a matched edge; otherwise one of the equalities
+	var okVal func(v ssa.Value, depth int) bool
+	okVal = func(v ssa.Value, depth int) bool {
+		if depth > 8 {
+			return false
+		}
+		if b, isB := constBool(v); isB {
+			return !b // a plain true is judged by where the return stands, below
+		}
+		for _, e := range eqs {
+			if v == e {
+				return true
+			}
+		}
+		if phi, ok := v.(*ssa.Phi); ok {
+			for i, e := range phi.Edges {
+				pred := phi.Block().Preds[i]
+				if b, isB := constBool(e); isB && b {
+					// `a == x || b == y`: the true comes over the matched edge of a test
+					if m, ok := matched[pred]; ok && pred.Succs[m] == phi.Block() {
+						continue
+					}
+					return false
+				}
+				if !okVal(e, depth+1) {
+					return false
+				}
+			}
+			return true
+		}
+		return false
+	}
+	hit := pathPruned(g, nil, func(ssa.Instruction) bool { return false }, func(in ssa.Instruction) bool {
+		ret, ok := in.(*ssa.Return)
+		if !ok {
+			return false
+		}
+		if b, isB := constBool(ret.Results[0]); isB {
+			return b
+		}
+		return !okVal(ret.Results[0], 0)
+	}, func(b *ssa.BasicBlock, k int) bool {
+		m, ok := matched[b]
+		return ok && m == k
+	})
+	if hit != nil {
+		return g.Name() + " can answer true without the status code having matched"
+	}
+	return ""
+}
+
+func keysOf(m map[int64]bool) []int64 {
+	var out []int64
+	for k := range m {
+		out = append(out, k)
+	}
+	sort.Slice(out, func(i, j int) bool { return out[i] < out[j] })
+	return out
 }
